@@ -6,7 +6,9 @@ from .. import common, build, lean, check, script, wiregen
 
 MODULE = "Dbus.Props.C12"
 THEOREMS = ["set_reads_back", "set_frame", "delete_removes", "delete_frame", "removeUnknown_frame", "removeUnknown_all_known",
-            "edit_leaves_rest", "edit_roundtrip", "padding_exact", "setSerial_keeps_valid", "setSerial_roundtrip"]
+            "edit_leaves_rest", "edit_roundtrip", "padding_exact", "setSerial_keeps_valid", "setSerial_roundtrip",
+            "set_keeps_valid", "delete_keeps_valid", "removeUnknown_keeps_valid", "edit_keeps_valid", "edits_keep_valid",
+            "edits_roundtrip"]
 
 
 def val_for(rng, code, k):
